@@ -28,6 +28,11 @@ THEOREMS = ["RootSim.C12.inv_init",
             "RootSim.C12.realloc_too_big",
             "RootSim.C12.calloc_zeroed",
             "RootSim.C12.calloc_wraparound_counterexample",
+            "RootSim.C12.calloc_overflow_fails",
+            "RootSim.C12.calloc_zeroed_checked",
+            "RootSim.C12.calloc_fails_cleanly",
+            "RootSim.C12.callocStatement_patched",
+            "RootSim.C12.callocStatement_pinned_false",
             "RootSim.C12.descent_safe",
             "RootSim.C12.buddy_malloc_null_iff",
             "RootSim.C12.reachable_trees_wf"]
